@@ -1,0 +1,9 @@
+//go:build verif
+// +build verif
+
+package service
+
+// VerifAgeTick runs one age tick of the pending container synchronously: exactly the
+// function the container's ticker goroutine (simpleContainer.loop) starts once a minute.
+// Like the ticker's call it takes no pool lock.  Thin export, no behaviour of its own.
+func (pool *TxPool) VerifAgeTick() { pool.received.growRing() }
